@@ -656,7 +656,10 @@ impl Regex {
     }
 
     fn new_options(options: RegexOptions) -> Result<Regex> {
-        let raw_tree = Expr::parse_tree(&options.pattern)?;
+        // the builder's case-insensitive option has to reach the parts of the pattern that
+        // are interpreted by the VM or delegated piecewise, so it acts like a leading `(?i)`
+        let raw_tree =
+            Parser::parse_with_options(&options.pattern, options.syntaxc.get_case_insensitive())?;
 
         // wrapper to search for re at arbitrary start position,
         // and to capture the match bounds
